@@ -28,7 +28,7 @@ func (world) Run(k *kernel.K) {
 const mutationRule = "Mutants of one valid encoding: truncation at EVERY byte offset; up to 64 tape-chosen bit-flip mutants (1-3 bits each); " +
 	"every compact integer found by a reference walker (up to 12 tape-chosen positions) replaced by each wider non-canonical mode of the same value " +
 	"(2-byte mode for <64, 4-byte mode for <2^14, big-integer mode for <2^30, big-integer mode with leading zero bytes), by other values at the mode " +
-	"boundaries (0,1,63,64,16383,16384,v+-1), by a declared 256 KiB, 2^62 and 2^64-1, each also with only two bytes following; splices of two valid " +
+	"boundaries (0,1,63,64,16383,16384,v+-1), by a declared 1 MiB-3, 2^62 and 2^64-1, each also with only two bytes following; splices of two valid " +
 	"messages; trailing garbage; short random strings. Inputs in which a byte string declares >= 1 MiB are not executed (first-touch cost of this " +
 	"machine; probe not-executed-giant-declaration). "
 
@@ -41,7 +41,7 @@ func (world) Rule(p string) string {
 			"Justification, Commit/Vote/CatchUp messages, authority lists, voters through Encode/DecodeGrandpaVoters, BABE pre-digest through DecodeBabePreDigest, consensus " +
 			"digests, epoch/config data, equivocation proof, block announce), encoded by the REAL encoder. " + mutationRule +
 			"Oracle per input: Unmarshal fails, or Marshal(value) equals the first len(Marshal(value)) bytes of the input (so a zero-filled truncated input or a non-canonical " +
-			"compact fails); no panic; allocation delta (runtime/metrics, confirmed by ReadMemStats on a repeated decode) <= 64*len+64KiB. A run is non-trivial if at least one " +
+			"compact fails); no panic; allocation delta (runtime/metrics, confirmed by ReadMemStats on a repeated decode) <= 64*len+128KiB. A run is non-trivial if at least one " +
 			"mutant was decoded; distinct = artifact type x per-mutation-kind accept/reject counts."
 	case "C33":
 		return "one run = one tape-chosen protocol out of 14 (block announce + handshake, transactions + handshake, block request/response, GRANDPA message + handshake, light " +
@@ -49,7 +49,7 @@ func (world) Rule(p string) string {
 			"real encoder, then corrupted. " + mutationRule + "Protobuf-framed protocols additionally: every length varint (two nesting levels) replaced by 0, len+-1, 0x7f, " +
 			"2^20, 2^32-1, 2^63-1, 2^64-1, an over-long and a non-minimal varint; and well-formed protobufs whose inner SCALE blobs (header, body extrinsics, justification " +
 			"flags, from-block fields) are corrupted with the same schedule. The REAL decoder of the protocol runs on every mutant. Oracle: message or error (never neither); " +
-			"no panic; allocation delta <= 256*len+64KiB; if it decodes, encode(decode(x)) must decode again and re-encode to the same bytes. No wall-time bound is asserted; " +
+			"no panic; allocation delta <= 256*len+128KiB; if it decodes, encode(decode(x)) must decode again and re-encode to the same bytes. No wall-time bound is asserted; " +
 			"a decode that does not return within 2 minutes kills the worker (TROUBLE with the input). Non-trivial = at least one mutant executed."
 	case "C07":
 		return "one run = one node encoding: harvested from a real in-memory trie built from tape keys/values (V0 or V1 layout; node.Encode of every node, proof nodes from " +
@@ -58,7 +58,7 @@ func (world) Rule(p string) string {
 			"NewEncodedBranch. First the round trip: node.Decode and triedb codec.Decode of the intact encoding must give the same partial key, value or value hash with the " +
 			"hashed flag, and the same children. Then mutants: " + mutationRule + "Also all 255 other header bytes in front of the rest, and crafted partial-key-length headers " +
 			"for all five variants (mask-1, mask, mask+1, mask+254..256, mask+510, 65534, 65535, 257 continuation bytes, continuation bytes to the end). Both decoders run on " +
-			"every mutant. Oracle: node or error; no panic; Read calls <= 16*len+1024; allocation delta <= 64*len+64KiB. Non-trivial = at least one mutant executed."
+			"every mutant. Oracle: node or error; no panic; Read calls <= 16*len+1024; allocation delta <= 64*len+128KiB. Non-trivial = at least one mutant executed."
 	}
 	return ""
 }
